@@ -55,6 +55,20 @@ var c09wValues = map[string]float64{
 
 const c09wMaxEl = int64(250 * 365 * 24 * time.Hour) // keeps timex.Now() (about 1y at start) inside int64
 
+// Finding of the 32-bit build (unit lib/collection@386, FINDINGS.md; fixed in /repo f973659,
+// regression replay harness/C09/replays/window-model-span-32bit.json): RollingWindow.span()
+// converted the number of elapsed intervals to int BEFORE comparing it with the size, so with a
+// 32-bit int a gap of g >= 2^32 intervals whose low 32 bits are in [0,size) was taken for a gap of
+// g mod 2^32 buckets: values that were whole windows old stayed visible. c09wSpanWraps labels the
+// operations made at such a gap (class label on every build; it judges nothing).
+func c09wSpanWraps(gap, size int64) bool {
+	if gap < 1<<32 {
+		return false
+	}
+	low := int64(int32(uint32(gap)))
+	return 0 <= low && low < size
+}
+
 type c09wAdd struct {
 	bucket int64
 	id     int // -1: special value
@@ -161,6 +175,7 @@ func c09wInterp(t *testing.T, c c09wCase) (v kit.Verdict) {
 			adds     []c09wAdd
 			nextID   int
 			lastAddT int64 = -1
+			lastUpdB int64 // bucket of the last Add (creation: 0): where the window's lastTime stands
 		)
 		check := func(what string) bool {
 			if got := int64(time.Since(start)); got != el {
@@ -168,6 +183,9 @@ func c09wInterp(t *testing.T, c c09wCase) (v kit.Verdict) {
 				return false
 			}
 			cur := el / c.Iv
+			if c09wSpanWraps(cur-lastUpdB, size) {
+				classes["reduce-at-gap-2^32k+(<size)-intervals"] = true
+			}
 			lo := cur - size // exclusive
 			hi := cur        // inclusive unless ignored
 			if c.Ign {
@@ -386,6 +404,10 @@ func c09wInterp(t *testing.T, c c09wCase) (v kit.Verdict) {
 				}
 			}
 			if o.K == "add" || o.K == "addn" {
+				if c09wSpanWraps(el/c.Iv-lastUpdB, size) {
+					classes["add-at-gap-2^32k+(<size)-intervals"] = true
+				}
+				lastUpdB = el / c.Iv
 				if lastAddT >= 0 && el-lastAddT >= win {
 					classes["add-after-long-gap"] = true
 				}
